@@ -1,5 +1,5 @@
 """Property -> rules table.  Rules are functions (ctx, repo)."""
-from .rules import ndim, iface, wrappers, rng, mech, errmodels, popmodels
+from .rules import ndim, iface, wrappers, rng, mech, errmodels, popmodels, switch, copies
 
 PROPS = {}
 
@@ -60,7 +60,8 @@ TERM_ASSUME = COMMON_ASSUME + [
     'the transcription of the docstring densities in chk/spec.py']
 
 prop('C03',
-     [errmodels.r04_terms, popmodels.r05_2, iface.r02_7],
+     [errmodels.r04_terms, popmodels.r05_2, iface.r02_7, switch.r03_5,
+      switch.r08_7],
      undecided=['mechanistic sensitivities (sundials)',
                 'finiteness of scores at run time'],
      assumptions=TERM_ASSUME,
@@ -106,7 +107,8 @@ prop('C06',
                  'correctly; reported moments equal the closed-form moments.')
 
 prop('C11',
-     [mech.r11_1, mech.r11_2],
+     [mech.r11_1, mech.r11_2, mech.r11_5, copies.r11_3, copies.r11_6,
+      switch.r08_7],
      undecided=['equality of simulation results (ODE solver)'],
      assumptions=COMMON_ASSUME,
      technique='path-sensitive typestate over the statement paths of every '
@@ -131,6 +133,23 @@ prop('C16',
                  'callees, Generator seeds are never re-seeded or used in '
                  'arithmetic, generators are built per call from the seed, '
                  'and every stochastic callee receives a seed-derived value.')
+
+prop('C19',
+     [copies.r19_3, copies.r11_3, copies.r11_6, switch.r03_5, mech.r11_1,
+      mech.r11_5],
+     undecided=['multi-process behaviour (pickling, fork)',
+                'exception paths'],
+     assumptions=COMMON_ASSUME,
+     technique='ownership / aliasing analysis of constructor stores and '
+               'copy() methods over field effects; typestate of the '
+               'sensitivity switch and of the simulator/protocol pairing',
+     explanation='Decides the hidden-state clauses of C19: constructors '
+                 'store copies that are deep enough for every class the '
+                 'argument may be; copy() shares no mutable state; every '
+                 'simulate() is reached with the sensitivity switch in the '
+                 'state its use requires, whatever evaluation ran before; a '
+                 'rebuilt simulator keeps the dosing protocol and a '
+                 'consistent sensitivity flag.')
 
 # properties not claimed (yet), with the reason printed in MANIFEST.json
 NOT_CLAIMED = {}
